@@ -415,3 +415,58 @@ def index_uniform(ctx):
 def Val_(name):
     from ..symenv import Val
     return Val(name)
+
+
+@rule("C16.itermv", props=["C16", "C20"], min_instances=3, mutants=[
+    ("itermv iterates the first trailing axis only", ("multivector", "                for indices in product(*(range(n) for n in shape))", "                for indices in product(*(range(n) for n in shape[:1]))")),
+    ("shape of list-backed coefficients omits the blade axis", ("multivector", "            return len(self), *self._values[0].shape", "            return self._values[0].shape")),
+])
+def itermv(ctx):
+    """shape = (number of blades, *trailing shape) and itermv yields one multivector per trailing index, each
+    indexing every coefficient with that index."""
+    from ..absint import Obj
+    from ..astx import NoValue
+    from ..symenv import make_interp, rep_algebra, mv_obj, val_repr
+    repo = ctx.repo
+    M = "multivector.MultiVector"
+    alg = rep_algebra(3)
+
+    def arr(name, shape):
+        o = Obj("ndarray-element", {"fmt": name, "shape": shape})
+        o.getitem = lambda idx: Val_(f"{name}[{idx!r}]")
+        return o
+    for label, shape in (("trailing shape (2,)", (2,)), ("trailing shape (2, 3)", (2, 3)), ("scalar coefficients", None)):
+        c = f"{M}.itermv#{label}"
+        fn = ctx.func(f"{M}.itermv")
+        vals = [arr("X", shape), arr("Y", shape)] if shape else [Val_("X"), Val_("Y")]
+        mv = mv_obj(alg, (1, 2), vals)
+        it = make_interp(repo)
+        try:
+            sh = it._instance_attr(mv, "shape")
+            out = it.run(f"{M}.itermv", [mv])
+        except NoValue as exc:
+            raise Unknown(c, str(exc), fn)
+        want_shape = (2,) + (shape or ())
+        problems = []
+        if tuple(sh) != want_shape:
+            problems.append(f"shape is {tuple(sh)}, expected {want_shape}")
+        if shape is None:
+            if out[0] != "return" or out[1] is not mv:
+                problems.append("itermv of a multivector with scalar coefficients is not the multivector itself")
+        else:
+            from itertools import product
+            want = [[f"X[{idx!r}]", f"Y[{idx!r}]"] for idx in product(*(range(n) for n in shape))]
+            got = None
+            if out[0] == "return" and isinstance(out[1], list):
+                try:
+                    got = [[val_repr(v) for v in m.attrs["_values"]] for m in out[1]]
+                    if any(tuple(m.attrs["_keys"]) != (1, 2) for m in out[1]):
+                        problems.append("an element multivector does not keep the keys")
+                except Exception:
+                    got = None
+            if got != want:
+                problems.append(f"itermv yields {got if got is not None else out!r}, expected one multivector per index: {want}")
+        if problems:
+            ctx.violation(c, "; ".join(problems), fn)
+        else:
+            ctx.ok(c, fn)
